@@ -25,7 +25,7 @@ from vk.run import h64
 from vk import tree as vtree
 
 LEVEL = 'exploration'
-RULE = ('operations parse(t, with_comments=f) over a pool of 40 valid, invalid and lexically nasty texts x {f}; goldens '
+RULE = ('operations parse(t, with_comments=f) over a pool of 45 valid, invalid and lexically nasty texts x {f}; goldens '
         'from fresh processes; (a) all ordered pairs (thorough: triples over 14 texts) in one process + random histories '
         'of 200 calls; the same through the quick-access object calmjs.parse.es5 (called, and its pretty_print / '
         'minify_print as history) over a 14-item pool; (b) 8-32 threads x many parses under switch intervals 5e-3, 1e-4, 1e-5, 1e-6 and under LINE yield '
@@ -55,6 +55,8 @@ POOL = [
     # (appended later; the indices above are referred to by number)  reserved words as property names, the
     # first member accesses a process may see
     'x = a.return / 2 / 1; y = b.if (c) / 2 / d', 'p.continue\n.q()', 'o.class.x = o.in / 2 / o.new', 'a.b.c',
+    # the same escape sequence at a position where it is allowed and at one where it is not
+    'a\\u0030 = 1;', '\\u0030a = 1;', 'x\\u0301 = \\u00e9;', '\\u0301x = 1', 'b\\u0030c = \\u0062 + b\\u0030',
 ]
 
 
@@ -312,7 +314,7 @@ def run(ctx):
 
     # (a') the same through the other public entry points: every (entry, text, flag) followed by a parse
     # through parse() or through the quick-access object, over the small pool; then mixed random histories
-    small_items = [(i, f) for i in (2, 3, 7, 8, 11, 15, 27, len(POOL) - 4, len(POOL) - 3, len(POOL) - 2) for f in (False, True)]
+    small_items = [(i, f) for i in (2, 3, 7, 8, 11, 15, 27) + tuple(range(len(POOL) - 9, len(POOL))) for f in (False, True)]
     idx = 0
     for first in itertools.product(small_items, (1, 2, 3)):
         for second in itertools.product(small_items, (0, 1)):
